@@ -2128,7 +2128,19 @@ impl NullableInterval {
                         let rhs_values = rhs.values();
                         match (lhs_values, rhs_values) {
                             (Some(lhs_values), Some(rhs_values)) => {
-                                lhs_values.equal(rhs_values)?.not()?
+                                let not_equal = lhs_values.equal(rhs_values)?.not()?;
+                                let both_not_null = matches!(
+                                    (self, rhs),
+                                    (Self::NotNull { .. }, Self::NotNull { .. })
+                                );
+                                // If one side may be NULL, it is distinct from the
+                                // (never NULL) other side whenever it is NULL, so the
+                                // result can be true even if the values are equal.
+                                if !both_not_null && not_equal == Interval::FALSE {
+                                    Interval::TRUE_OR_FALSE
+                                } else {
+                                    not_equal
+                                }
                             }
                             (Some(_), None) | (None, Some(_)) => Interval::TRUE,
                             (None, None) => unreachable!("Null case handled above"),
